@@ -24,7 +24,7 @@ FUNCTIONS = ["handedness", "are_planar", "angle_from_coords", "_tetrahedral_from
 BOUNDS = {"quick": "kernels: all real coordinates (4 / 6 points); perception functions: ids unbounded, template coordinates, all neighbour orders for Tet/SP, strided for "
                    "TBP/Oct; graphs: 5 templates (CHFClBr, PtHFClBr, PHFClBrI, S-HFClBrIO, HFC=CClBr) x atom reorderings (all for <= 5 atoms, else 24 seeded) x 24 cube "
                    "rotations x 3 translations x reflection x 4 noise patterns (eps 0.03 A); one reaction triple moved independently; second reaction template H3N + CH3Cl (9 atoms, TS carbon with three H at 1.07 A) in 24 seeded atom orders; zig-zag chains of 33..257 atoms rotated / translated / re-ordered",
-          "thorough": "all neighbour orders for TBP, 144 for Oct; 12 noise patterns; 60 atom orders of the methyl template; 8 orders of each chain"}
+          "thorough": "(both tiers, since round 3 of the seeded changes: every moved / re-ordered template geometry is also translated by (5e7, -3e7, 4e7) A, and a user cut-off override for the first hetero-element bond is checked in every atom order) all neighbour orders for TBP, 144 for Oct; 12 noise patterns; 60 atom orders of the methyl template; 8 orders of each chain"}
 OUTSIDE = ("continuous noise and arbitrary rotation angles end-to-end (non-linear real robustness queries are not decided by z3/cvc5 within minutes); rotation invariance of the "
            "are_planar decision (nlsat undecided); geometries within the band where are_planar depends on the order of the four points")
 ASSUMPTIONS = ["floating point evaluation agrees in sign with exact arithmetic away from decision boundaries (the property's 'general position')",
